@@ -52,6 +52,8 @@ def sweep(rec, ctx, rng, exhaustive):
         # Fixed (guard unused)
         if g == 0 or not exhaustive:
             Fixed.initialize(Options(dict(arithmetic='fixed', precision=p, display=d)))
+            if Fixed.display != (d if d <= p else p):
+                rec.fail('fixed:display-not-as-configured', 'precision=%d display=%d configured, the class prints %r digits' % (p, d, Fixed.display))
             vals = interesting(p, max(0, p - min(d, p))) if exhaustive else [rng.randint(-10 ** rng.randint(0, 40), 10 ** rng.randint(0, 40)) for _ in range(300)]
             if not exhaustive:
                 u = 10 ** max(0, p - min(d, p))
@@ -65,6 +67,8 @@ def sweep(rec, ctx, rng, exhaustive):
                 n += 1
         Guarded.initialize(Options(dict(arithmetic='guarded', precision=p, guard=g, display=d)))
         dd = min(d, p + g)
+        if Guarded.display != dd:
+            rec.fail('guarded:display-not-as-configured', 'precision=%d guard=%d display=%d configured, the class prints %r digits' % (p, g, d, Guarded.display))
         vals = interesting(p + g, p + g - dd) if exhaustive else [rng.randint(-10 ** rng.randint(0, 40), 10 ** rng.randint(0, 40)) for _ in range(300)]
         if not exhaustive:
             # values on and beside a rounding boundary at any number of dropped digits (ties are where a rounding rule shows)
@@ -80,6 +84,8 @@ def sweep(rec, ctx, rng, exhaustive):
             n += 1
         if g == 0 or not exhaustive:
             Rational.initialize(Options(dict(arithmetic='rational', display=d)))
+            if Rational.dp != d:
+                rec.fail('rational:display-not-as-configured', 'display=%d configured, the class prints %r digits' % (d, Rational.dp))
             for k in range(-60, 61):
                 for den in (1, 2, 3, 4, 7, 8, 2 * 10 ** d, 4 * 10 ** d, 10 ** d, 3 * 10 ** d):
                     str(Rational(k, den))
